@@ -390,11 +390,14 @@ fn replay_out(c: &Value, w: &World, inst: u64, t: &mut Tally) {
 	t.ok(matches!(v, Ok(Ok(()))), "proof_does_not_verify", inst, json!({"amt": amt.to_string(), "depth": path.len()}));
 
 	let want = (amt, &id, mode);
-	// keychain rewinders: every seed x both generations, each on a fresh keychain
+	// rewinding wallets: one more fresh keychain per seed (never the creating instance)
+	let wallets: Vec<(&str, ExtKeychain)> = ["s1", "s2", "s3"].iter().map(|n| (*n, w.keychain(n))).collect();
+	let wallet = |n: &str| -> &ExtKeychain { &wallets.iter().find(|(k, _)| *k == n).expect("seed").1 };
+	// keychain rewinders: every seed x both generations
 	for row in c["rew"].as_array().unwrap() {
-		let kc = w.keychain(row["seed"].as_str().unwrap());
+		let kc = wallet(row["seed"].as_str().unwrap());
 		let kind = row["kind"].as_str().unwrap();
-		let b = AnyBuilder::make(kind, &kc);
+		let b = AnyBuilder::make(kind, kc);
 		let (got, det) = classify(kc.secp(), &b, commit, proof, want);
 		let exp = row["exp"].as_str().unwrap();
 		t.ok(
@@ -406,7 +409,7 @@ fn replay_out(c: &Value, w: &World, inst: u64, t: &mut Tally) {
 	}
 	// view keys
 	for row in c["view"].as_array().unwrap() {
-		let kc = w.keychain(row["seed"].as_str().unwrap());
+		let kc = wallet(row["seed"].as_str().unwrap());
 		let prefix = w.path(&row["prefix"]);
 		let mut h = kc.hasher();
 		let ext = match kc.master.derive_priv(kc.secp(), &mut h, &child_numbers(&prefix)) {
@@ -416,7 +419,7 @@ fn replay_out(c: &Value, w: &World, inst: u64, t: &mut Tally) {
 				continue;
 			}
 		};
-		let vk = match ViewKey::create(&kc, ext, &mut h, w.is_test) {
+		let vk = match ViewKey::create(kc, ext, &mut h, w.is_test) {
 			Ok(x) => x,
 			Err(_) => {
 				t.ok(false, "viewkey_create_failed", inst, Value::Null);
@@ -427,7 +430,7 @@ fn replay_out(c: &Value, w: &World, inst: u64, t: &mut Tally) {
 		if !prefix.is_empty() && prefix.iter().all(|x| x & 0x8000_0000 == 0) {
 			// the same view key reached by public derivation from the root view key
 			let mut h2 = kc.hasher();
-			let root = ViewKey::create(&kc, kc.master.clone(), &mut h2, w.is_test).unwrap();
+			let root = ViewKey::create(kc, kc.master.clone(), &mut h2, w.is_test).unwrap();
 			let mut cur = Ok(root);
 			for x in &prefix {
 				cur = cur.and_then(|k| k.ckd_pub(kc.secp(), &mut h2, ChildNumber::from(*x)));
@@ -453,7 +456,7 @@ fn replay_out(c: &Value, w: &World, inst: u64, t: &mut Tally) {
 	}
 	// siblings: a different argument gives a different commitment; the proof does not transfer
 	for sb in c["sib"].as_array().unwrap() {
-		let kc = w.keychain(sb["seed"].as_str().unwrap());
+		let kc = wallet(sb["seed"].as_str().unwrap());
 		let p2 = w.path(&sb["path"]);
 		let id2 = ident(&p2);
 		let amt2 = w.amount(sb["amt"].as_str().unwrap());
@@ -627,8 +630,14 @@ fn replay_alg(c: &Value, seed: u64, case: u64, inst: u64, t: &mut Tally) {
 	let kc = ExtKeychain::from_seed(&r.bytes32(), inst % 2 == 1).unwrap();
 	let secp = kc.secp();
 	let mut names = vec![];
+	let mut used: Vec<Vec<u32>> = vec![];
 	for n in ["d1", "d2"] {
-		let p = rand_path(&mut r);
+		// different names are different keys: distinct effective paths
+		let mut p = rand_path(&mut r);
+		while used.contains(&p) {
+			p = rand_path(&mut r);
+		}
+		used.push(p.clone());
 		let sw = if r.below(2) == 0 {
 			SwitchCommitmentType::Regular
 		} else {
@@ -853,7 +862,8 @@ fn replay_tx(c: &Value, seed: u64, case: u64, inst: u64, t: &mut Tally) {
 		"Plain" => KernelFeatures::Plain { fee: ff },
 		"HeightLocked" => KernelFeatures::HeightLocked {
 			fee: ff,
-			lock_height: r.below(1 << 20),
+			// a block built on the default header has height 1
+			lock_height: if via == "block" { r.below(2) } else { r.below(1 << 20) },
 		},
 		x => panic!("kern {}", x),
 	};
